@@ -22,7 +22,8 @@ case input = [naddr, labels, progs, actions, mode]
            acquired from push_datagram (models backends whose lock acquisition is a checkpoint, e.g. trio);
            reallistener 1 = the listener is the REAL asyncio DatagramListenerProtocol + DatagramListenerSocketAdapter on a
            bound UDP socket (datagrams injected with protocol.datagram_received(), what the asyncio transport calls) and
-           action [5] = "serve() is awaited now": datagrams arriving before it go through the pre-serve backlog
+           action [5] = "serve() is awaited now": datagrams arriving before it go through the pre-serve backlog;
+           a third element 1 = the loop uses asyncio.eager_task_factory (tasks start synchronously inside start_soon)
 The model gets (naddr, labels) and must accept every label and produce the same observables:
   output = [obs, summary, stuck]    stuck = [] (the real server is idle at the end of the script; the model lists the
            scheduler steps still enabled in its final state: a queued datagram whose coroutine waits, a pending task ...)
@@ -36,6 +37,7 @@ import asyncio
 import contextlib
 import itertools
 import logging
+import os
 import socket
 
 from common import detloop
@@ -90,6 +92,7 @@ class _Run:
         self.actions = actions
         self.yieldcond = bool(mode and mode[0])
         self.real_listener = bool(mode and len(mode) > 1 and mode[1])
+        self.eager = bool(mode and len(mode) > 2 and mode[2])
         self.log = []            # events, see _convert
         self.gates = {}
         self.stopping = False
@@ -168,6 +171,9 @@ class _Run:
 
         run = self
         loop = asyncio.get_running_loop()
+        if self.eager:
+            # asyncio.eager_task_factory: start_soon() runs the new task synchronously until its first suspension
+            loop.set_task_factory(asyncio.eager_task_factory)
         real_backend = AsyncIOBackend()
 
         class YieldingCondition(asyncio.Condition):
@@ -371,7 +377,11 @@ class _Run:
 def run_script(naddr, progs, actions, mode, final_hook=None):
     r = _Run(naddr, progs, actions, mode)
     r.final_hook = final_hook
-    detloop.run(r.main(), max_steps=100000)
+    try:
+        detloop.run(r.main(), max_steps=100000)
+    except detloop.DeadlockError:
+        # the real server (or its tear-down) waits for something that can never happen any more
+        r.log.append(("hang",))
     return r.log
 
 
@@ -434,6 +444,8 @@ def convert(naddr, log):
             labels.append([L_GCANCEL, a, int(hook_restarts_after_generator_cancel())])
         elif k == "crash":
             obs.append([O_CRASH])
+        elif k == "hang":
+            obs.append([8, 1])      # never produced by the model
         else:
             obs.append([8, 0])      # gcancelled: never expected, always a disagreement
     summary = [[gens[a], active[a], recvd[a]] for a in range(naddr)]
@@ -570,6 +582,7 @@ RULE = ("a case is a driver script for the real server (datagram arrivals from 1
         "0/1/2/31..34/40/64/65 datagrams followed by every sequence of up to 3 {loop iteration, late arrival} steps, and "
         "backlogs of 127/128/129/257/1000 (thorough: 3000, 5000) datagrams; handlers yielding float timeouts 0 / 1 tick / "
         "none with datagrams already queued, every action sequence up to length 3 (4) over {arrive, idle, advance 1 tick}. The "
+        "asyncio.eager_task_factory as a dimension (exhaustive 1-address family on both listeners, random cases); "
         "the listener alone across serve() restarts: every enabled history of {arrive, serve, cancel} up to length 6 (8). The "
         "model must also have no scheduler step left enabled when the real server is idle at the end of the script. "
         "Cases whose label sequence was already produced are skipped. Non-trivial = a datagram arrived while its "
@@ -744,10 +757,47 @@ def _backlog_cases(seen, thorough):
                         yield c
 
 
+def _eager_cases(seen, thorough):
+    """asyncio.eager_task_factory: every action sequence up to length 4 over {arrive, release, idle} x programs up to
+    length 2 over {suspend, yield, return, raise} for one address (in-memory and real listener); with
+    VERIF_C16_EAGER_BURST=1 also bursts of hundreds of datagrams for one client whose one-shot handlers never suspend
+    (every restart by the task-done hook then happens synchronously inside the previous one)"""
+    choices = ([0], [1, -1], [2], [3])
+    progs_all = [list(p) for n in range(3) for p in itertools.product(choices, repeat=n)]
+    for n in range(1, 5):
+        for seq in itertools.product("ARQ", repeat=n):
+            if "A" not in seq:
+                continue
+            actions, k = [], 0
+            for x in seq:
+                if x == "A":
+                    actions.append([0, 0, bytes([97 + k])])
+                    k += 1
+                else:
+                    actions.append([1, 0] if x == "R" else [3])
+            for prog in progs_all:
+                for mode in ([0, 0, 1], [0, 1, 1]):
+                    c = _case(1, [[list(ch) for ch in prog]], actions, mode, seen, ["eager-tasks"])
+                    if c:
+                        yield c
+    if os.environ.get("VERIF_C16_EAGER_BURST", EAGER_BURST_DEFAULT) == "1":
+        for b in (170, 400) + ((1000,) if thorough else ()):
+            # the first invocation suspends once (the burst is queued behind it), every later one returns after one request
+            progs = [[[1, -1], [0]] + [[2], [1, -1]] * b]
+            actions = [[0, 0, b"first"], [3]] + [[0, 0, b"D%d" % k] for k in range(b)] + [[3], [1, 0], [3]]
+            c = _case(1, progs, actions, [0, 0, 1], seen, ["eager-tasks", "eager-burst"])
+            if c:
+                yield c
+
+
+# "1" once the restart no longer nests under asyncio.eager_task_factory (meta/fixes/C16_eager_restart_recursion.diff)
+EAGER_BURST_DEFAULT = "0"
+
+
 def _random_case(rng, seen, thorough):
     naddr = rng.choice([1, 2, 2, 3, 3])
     ndg = rng.randint(1, 6)
-    mode = [rng.choice([0, 0, 1]), rng.choice([0, 0, 1])]
+    mode = [rng.choice([0, 0, 1]), rng.choice([0, 0, 1]), rng.choice([0, 0, 1])]
     progs = []
     for _ in range(naddr):
         n = rng.randint(0, 6 if not thorough else 9)
@@ -771,7 +821,7 @@ def _random_case(rng, seen, thorough):
     if mode[1] and rng.random() < 0.5:
         actions.insert(rng.randrange(len(actions) + 1), [5])
     return _case(naddr, progs, actions, mode, seen, ["random", "yieldcond" if mode[0] else "plaincond"] +
-                 (["real-listener"] if mode[1] else []))
+                 (["real-listener"] if mode[1] else []) + (["eager-tasks"] if mode[2] else []))
 
 
 def cases(tier, rng, escalate):
@@ -787,6 +837,7 @@ def cases(tier, rng, escalate):
     yield from _backlog_cases(seen, thorough)
     yield from _timeout_cases(seen, thorough)
     yield from _listener_cases(thorough)
+    yield from _eager_cases(seen, thorough)
     n = 12000 if thorough else 2500
     for _ in range(n):
         c = _random_case(rng, seen, thorough)
@@ -803,6 +854,8 @@ def _analyse(naddr, log, where):
     yielded = [False] * naddr
     for ev in log:
         k = ev[0]
+        if k == "hang":
+            return f"hang: the server (or its tear-down) waits for something that can never happen ({where})"
         if k == "crash":
             return f"crash: serve() terminated ({where})"
         if k == "gcancelled":
